@@ -636,4 +636,272 @@ end
 
 end
 
+/-! ### `proof_contains_set` in closed form -/
+
+/-- first pass (`elide_revealing_set(reveal)`): hit = not in the reveal set -/
+def revealHit (T : List Digest) (e : Env) : Digest → Bool :=
+  fun d => memD (revealSets T [] e) d != true
+
+/-- the targets with no target beneath them (`target.difference(&interior)`) -/
+def elidableOf (T : List Digest) (e : Env) : List Digest :=
+  T.filter (fun d => !memD (interiorSets T [] e) d)
+
+/-- second pass (`elide_removing_set(elidable)`): hit = an elidable target -/
+def elidableHit (T : List Digest) (e : Env) : Digest → Bool :=
+  fun d => memD (elidableOf T e) d != false
+
+/-- the proof envelope, as a pure function of the envelope and the targets -/
+def proofOf (T : List Digest) (e : Env) : Env :=
+  prune (elidableHit T e) (prune (revealHit T e) e)
+
+theorem revealHit_false_iff {T : List Digest} {e : Env} {d : Digest} :
+    revealHit T e d = false ↔ d ∈ revealSets T [] e := by
+  simp [revealHit, memD_iff]
+
+theorem elidableHit_true_iff {T : List Digest} {e : Env} {d : Digest} :
+    elidableHit T e d = true ↔ d ∈ T ∧ d ∉ interiorSets T [] e := by
+  simp [elidableHit, elidableOf, memD_iff, memD_false_iff]
+
+section
+variable (h : Hash) (A : Aead) (Z : Deflate)
+
+theorem proofContainsSet_eq (e : Env) (T : List Digest) (hw : WF h e) (hs : Shape e) :
+    proofContainsSet h A Z e T =
+      if T.all (memD (revealSets T [] e)) then .ok (some (proofOf T e)) else .ok none := by
+  simp only [proofContainsSet]
+  by_cases hall : T.all (memD (revealSets T [] e)) = true
+  · simp only [hall, Bool.not_true, Bool.false_eq_true, if_false, if_true]
+    rw [elideSet_elide_eq h A Z _ true e hw hs]
+    simp only
+    rw [elideSet_elide_eq h A Z _ false _ (prune_wf h _ e hw) (prune_shape _ e hs)]
+    rfl
+  · simp [hall]
+
+end
+
+/-! ### targets, reveal set, walk -/
+
+theorem mem_reveal_iff {T : List Digest} {e : Env} {d : Digest} :
+    d ∈ revealSets T [] e ↔
+      ∃ p x, e.at p = some x ∧ memD T x.digest = true ∧
+        ∃ q y, q <+: p ∧ e.at q = some y ∧ y.digest = d := by
+  rw [revealSets_collect]
+  simp [CollectSpec, OnPath]
+
+theorem mem_interior_iff {T : List Digest} {e : Env} {d : Digest} :
+    d ∈ interiorSets T [] e ↔
+      ∃ p x, e.at p = some x ∧ memD T x.digest = true ∧
+        ∃ q y, q <+: p ∧ q ≠ p ∧ e.at q = some y ∧ y.digest = d := by
+  rw [interiorSets_collect]
+  simp [CollectSpec, OnPath]
+
+theorem interior_sub_reveal {T : List Digest} {e : Env} {d : Digest}
+    (hd : d ∈ interiorSets T [] e) : d ∈ revealSets T [] e := by
+  obtain ⟨p, x, hx, hm, q, y, hq, _, hy, hyd⟩ := mem_interior_iff.mp hd
+  exact mem_reveal_iff.mpr ⟨p, x, hx, hm, q, y, hq, hy, hyd⟩
+
+/-- a revealed digest is interior or is a target -/
+theorem reveal_sub {T : List Digest} {e : Env} {d : Digest} (hd : d ∈ revealSets T [] e) :
+    d ∈ interiorSets T [] e ∨ d ∈ T := by
+  obtain ⟨p, x, hx, hm, q, y, hq, hy, hyd⟩ := mem_reveal_iff.mp hd
+  by_cases hqp : q = p
+  · subst hqp
+    rw [hx] at hy; cases hy
+    exact Or.inr (hyd ▸ (memD_iff T _).mp hm)
+  · exact Or.inl (mem_interior_iff.mpr ⟨p, x, hx, hm, q, y, hq, hqp, hy, hyd⟩)
+
+theorem targets_subset_iff_walk (T : List Digest) (e : Env) :
+    (∀ d ∈ T, memD (revealSets T [] e) d = true) ↔ ∀ d ∈ T, d ∈ walkDigests e := by
+  constructor
+  · intro hall d hd
+    obtain ⟨p, x, _, _, q, y, _, hy, hyd⟩ := mem_reveal_iff.mp ((memD_iff _ _).mp (hall d hd))
+    exact mem_walkDigests_iff.mpr ⟨q, y, hy, hyd⟩
+  · intro hall d hd
+    obtain ⟨p, x, hx, hxd⟩ := mem_walkDigests_iff.mp (hall d hd)
+    apply (memD_iff _ _).mpr
+    exact mem_reveal_iff.mpr ⟨p, x, hx, (memD_iff _ _).mpr (hxd ▸ hd), p, x, List.prefix_refl _, hx, hxd⟩
+
+theorem all_memD_iff (T L : List Digest) : T.all (memD L) = true ↔ ∀ d ∈ T, memD L d = true := by
+  simp [List.all_eq_true]
+
+/-! ### every target occurs in the proof -/
+
+theorem prefix_trans' {α} {a b c : List α} (h1 : a <+: b) (h2 : b <+: c) : a <+: c :=
+  List.IsPrefix.trans h1 h2
+
+/-- a revealed position survives the first pass -/
+theorem reveal_pass_at {T : List Digest} {e x y : Env} {p q : Path}
+    (hx : e.at p = some x) (hm : memD T x.digest = true) (hq : q <+: p) (hy : e.at q = some y) :
+    (prune (revealHit T e) e).at q = some (prune (revealHit T e) y) := by
+  apply prune_at_of_clear hy
+  intro q' z hq' _ hz
+  exact revealHit_false_iff.mpr (mem_reveal_iff.mpr ⟨p, x, hx, hm, q', z, hq'.trans hq, hz, rfl⟩)
+
+theorem target_in_proof {T : List Digest} {e : Env} {d : Digest} (hdT : d ∈ T)
+    (hd : d ∈ revealSets T [] e) : d ∈ walkDigests (proofOf T e) := by
+  obtain ⟨p, x, hx, hm, q, y, hq, hy, hyd⟩ := mem_reveal_iff.mp hd
+  have h1 := reveal_pass_at hx hm hq hy
+  obtain ⟨q', z, hq', hz, hpz, hor⟩ := prune_top (f := elidableHit T e) h1
+  have hzd : (prune (elidableHit T e) z).digest = z.digest := prune_digest _ _
+  rcases hor with rfl | hhit
+  · rw [h1] at hz; cases hz
+    refine mem_walkDigests_iff.mpr ⟨q', _, hpz, ?_⟩
+    rw [prune_digest, prune_digest]; exact hyd
+  · by_cases hqq : q' = q
+    · subst hqq
+      rw [h1] at hz; cases hz
+      refine mem_walkDigests_iff.mpr ⟨q', _, hpz, ?_⟩
+      rw [prune_digest, prune_digest]; exact hyd
+    · exfalso
+      obtain ⟨z0, hz0, hzz0, _⟩ := prune_at_inv hz
+      have hzd0 : z.digest = z0.digest := by rw [hzz0, prune_digest]
+      have hint : z.digest ∈ interiorSets T [] e :=
+        mem_interior_iff.mpr ⟨q, y, hy, (memD_iff _ _).mpr (hyd ▸ hdT), q', z0, hq', hqq, hz0, hzd0.symm⟩
+      exact (elidableHit_true_iff.mp hhit).2 hint
+
+/-! ### minimality -/
+
+/-- positions of the proof are positions of the envelope, with the same digest, and the
+element was hit by neither pass unless the proof shows it elided -/
+theorem proofOf_at_inv {T : List Digest} {e x : Env} {p : Path} (hx : (proofOf T e).at p = some x) :
+    ∃ y, e.at p = some y ∧ x = prune (elidableHit T e) (prune (revealHit T e) y) ∧
+      x.digest = y.digest := by
+  obtain ⟨x1, hx1, hxx1, _⟩ := prune_at_inv hx
+  obtain ⟨y, hy, hx1y, _⟩ := prune_at_inv hx1
+  refine ⟨y, hy, by rw [hxx1, hx1y], ?_⟩
+  rw [hxx1, hx1y, prune_digest, prune_digest]
+
+theorem proofOf_not_elided {T : List Digest} {e x y : Env}
+    (hxy : x = prune (elidableHit T e) (prune (revealHit T e) y)) (hn : x.isElided = false) :
+    y.digest ∈ interiorSets T [] e ∧ y.isElided = false := by
+  subst hxy
+  obtain ⟨h2, hn1⟩ := prune_not_elided hn
+  obtain ⟨h1, hny⟩ := prune_not_elided hn1
+  rw [prune_digest] at h2
+  have hrev := revealHit_false_iff.mp h1
+  refine ⟨?_, hny⟩
+  rcases reveal_sub hrev with hi | ht
+  · exact hi
+  · by_cases hi : y.digest ∈ interiorSets T [] e
+    · exact hi
+    · have := elidableHit_true_iff.mpr ⟨ht, hi⟩
+      rw [h2] at this; cases this
+
+/-! ### minimality by positions -/
+
+/-- a position of `e` holding an element whose digest is a target -/
+def IsTargetPos (T : List Digest) (e : Env) (t : Path) : Prop :=
+  ∃ y, e.at t = some y ∧ memD T y.digest = true
+
+/-- position `p` lies strictly above a target position of `e` -/
+def AboveTarget (T : List Digest) (e : Env) (p : Path) : Prop :=
+  ∃ t, p <+: t ∧ p ≠ t ∧ IsTargetPos T e t
+
+/-- the kind of branching (node / wrapped / assertion / no children) and the digests of
+the children -/
+def childSig : Env → Nat × List Digest
+  | .node s as _ => (0, s.digest :: as.map Env.digest)
+  | .wrapped e _ => (2, [e.digest])
+  | .assertion p o _ => (3, [p.digest, o.digest])
+  | _ => (1, [])
+
+/-- what a collision-free hash guarantees inside one envelope: two non-obscured elements
+with the same digest branch the same way into children with the same digests -/
+def DigestFaithful (e : Env) : Prop :=
+  ∀ x ∈ elements e, ∀ y ∈ elements e, x.digest = y.digest →
+    x.isObscured = false → y.isObscured = false → childSig x = childSig y
+
+/-- no elided, encrypted or compressed element of `e` carries the digest of an element
+strictly above a target -/
+def NoObscuredInterior (T : List Digest) (e : Env) : Prop :=
+  ∀ x ∈ elements e, x.isObscured = true → memD (interiorSets T [] e) x.digest = false
+
+instance (e : Env) : Decidable (DigestFaithful e) := by unfold DigestFaithful; exact inferInstance
+instance (T : List Digest) (e : Env) : Decidable (NoObscuredInterior T e) := by
+  unfold NoObscuredInterior; exact inferInstance
+
+theorem childSig_child {x y : Env} (hs : childSig x = childSig y) (st : Step) :
+    (x.child st).map Env.digest = (y.child st).map Env.digest := by
+  cases x <;> cases y <;> simp [childSig] at hs <;> cases st <;> simp [Env.child, hs]
+  case node.node.assertion s1 as1 d1 s2 as2 d2 i =>
+    rw [← List.getElem?_map, ← List.getElem?_map, hs.2]
+
+theorem not_obscured_of_child {z c : Env} {st : Step} (hc : z.child st = some c) :
+    z.isObscured = false := by
+  cases ho : z.isObscured with
+  | false => rfl
+  | true => rw [Env.child_none_of_isObscured ho] at hc; cases hc
+
+theorem follow_target {T : List Digest} {e : Env} (hF : DigestFaithful e)
+    (hO : NoObscuredInterior T e) :
+    ∀ (t' : Path) (p q : Path) (y z : Env) (st : Step), e.at p = some y → e.at q = some z →
+      y.digest = z.digest → y.isObscured = false → IsTargetPos T e (q ++ st :: t') →
+      ∃ t₂, IsTargetPos T e (p ++ st :: t₂) := by
+  intro t'
+  induction t' with
+  | nil =>
+    intro p q y z st hy hz hd hyo ⟨w, hw, hm⟩
+    rw [Env.at_append, hz] at hw
+    obtain ⟨cz, hcz, hw'⟩ := Env.at_cons_some (e := z) hw
+    simp only [Env.at_nil, Option.some.injEq] at hw'; subst hw'
+    have hsig := hF y (at_mem_elements hy) z (at_mem_elements hz) hd hyo (not_obscured_of_child hcz)
+    have hch := childSig_child hsig st
+    rw [hcz] at hch
+    obtain ⟨cy, hcy, hcd⟩ := Option.map_eq_some_iff.mp hch
+    refine ⟨[], cy, ?_, ?_⟩
+    · rw [Env.at_append, hy]; simp [Env.at_cons, hcy]
+    · rw [hcd]; exact hm
+  | cons st' t'' ih =>
+    intro p q y z st hy hz hd hyo ⟨w, hw, hm⟩
+    have hw0 := hw
+    rw [Env.at_append, hz] at hw
+    obtain ⟨cz, hcz, hw'⟩ := Env.at_cons_some (e := z) hw
+    have hsig := hF y (at_mem_elements hy) z (at_mem_elements hz) hd hyo (not_obscured_of_child hcz)
+    have hch := childSig_child hsig st
+    rw [hcz] at hch
+    obtain ⟨cy, hcy, hcd⟩ := Option.map_eq_some_iff.mp hch
+    have hcy_at : e.at (p ++ [st]) = some cy := by
+      rw [Env.at_append, hy]; simp [Env.at_cons, hcy]
+    have hcz_at : e.at (q ++ [st]) = some cz := by
+      rw [Env.at_append, hz]; simp [Env.at_cons, hcz]
+    have hint : cz.digest ∈ interiorSets T [] e := by
+      refine mem_interior_iff.mpr ⟨q ++ st :: st' :: t'', w, hw0, hm, q ++ [st], cz, ?_, ?_, hcz_at, rfl⟩
+      · exact ⟨st' :: t'', by simp⟩
+      · intro heq
+        have := congrArg List.length heq
+        simp at this
+    have hcyo : cy.isObscured = false := by
+      cases ho : cy.isObscured with
+      | false => rfl
+      | true =>
+        have := hO cy (at_mem_elements hcy_at) ho
+        rw [hcd, (memD_iff _ _).mpr hint] at this; cases this
+    obtain ⟨t₂, ht₂⟩ := ih (p ++ [st]) (q ++ [st]) cy cz st' hcy_at hcz_at hcd hcyo
+      ⟨w, by simpa using hw0, hm⟩
+    exact ⟨st' :: t₂, by simpa using ht₂⟩
+
+/-- under the two hypotheses, a non-elided element of the proof sits strictly above a
+target position of the envelope -/
+theorem proofOf_above_target {T : List Digest} {e x : Env} {p : Path} (hF : DigestFaithful e)
+    (hO : NoObscuredInterior T e) (hx : (proofOf T e).at p = some x) (hn : x.isElided = false) :
+    AboveTarget T e p := by
+  obtain ⟨y, hy, hxy, _⟩ := proofOf_at_inv hx
+  obtain ⟨hint, _⟩ := proofOf_not_elided hxy hn
+  have hyo : y.isObscured = false := by
+    cases ho : y.isObscured with
+    | false => rfl
+    | true =>
+      have := hO y (at_mem_elements hy) ho
+      rw [(memD_iff _ _).mpr hint] at this; cases this
+  obtain ⟨t0, x0, hx0, hm, q, z, hq, hne, hz, hzd⟩ := mem_interior_iff.mp hint
+  obtain ⟨r, rfl⟩ := hq
+  cases r with
+  | nil => simp at hne
+  | cons st t' =>
+    obtain ⟨t₂, ht₂⟩ := follow_target hF hO t' p q y z st hy hz hzd.symm hyo ⟨x0, hx0, hm⟩
+    refine ⟨p ++ st :: t₂, ⟨st :: t₂, rfl⟩, ?_, ht₂⟩
+    intro heq
+    have := congrArg List.length heq
+    simp at this
+
 end EnvVerif
